@@ -39,7 +39,7 @@ UNIT_SCALES = {
     "arcmin": (1.0, 10.0), "arcsec": (10.0, 100.0), "kpc/h": (100.0, 1000.0), "Mpc/h": (0.1, 1.0),
 }
 MULTI = ((1.0, 2.0), (1.5, 5.0), (3.0, 10.0))
-RW = ((None, None), (-1.0, 50), (0.5, 3), (0.0, 10))
+RW = ((None, None), (-1.0, 50), (0.5, 3), (0.0, 10), (None, 25))
 COSMOS = ("Planck15", "inst:Planck15", "WMAP9", "custom", "curved")
 CUSTOM_EDGES = [0.1, 0.2, 0.5, 0.9]
 
